@@ -35,6 +35,9 @@ def build(t):
         if '__cls__' in t:
             c = classes()[t['__cls__']]
             kw = {k: build(v) for k, v in t.items() if k != '__cls__'}
+            if hasattr(c, '__attrs_attrs__'):
+                noinit = {a.name for a in c.__attrs_attrs__ if not a.init}
+                kw = {k.lstrip('_'): v for k, v in kw.items() if k not in noinit}
             if '__raw__' in kw:        # bypass validators (class invariant deliberately broken by a counterexample)
                 raw = kw.pop('__raw__')
                 o = c.__new__(c)
